@@ -19,7 +19,7 @@ ASSUMPTIONS = ['graphs are connected (writer documents a single connected compon
 
 def budget(tier):
     if tier == 'thorough':
-        return dict(examples=3000, shards=16, procs=16)
+        return dict(examples=8000, shards=16, procs=16)
     return dict(examples=800, shards=4, procs=4)
 
 
